@@ -89,10 +89,12 @@ CHILD = textwrap.dedent('''
     pkg = %(pkg)r
     count = [0]
     down_at = fail_at[1] if isinstance(fail_at, (list, tuple)) and fail_at[0] == 'down' else None
-    retry_at = fail_at[1] if isinstance(fail_at, (list, tuple)) and fail_at[0] in ('retry', 'retry2') else None
+    retry_at = fail_at[1] if isinstance(fail_at, (list, tuple)) and fail_at[0] in ('retry', 'retry2', 'retry3') else None
+    # retry3: the first attempt fails inside the stream writer itself - a cell the extended JSON cannot write (a Fraction)
+    unwritable = isinstance(fail_at, (list, tuple)) and fail_at[0] == 'retry3'
     # retry2: the failed attempt saw other data (corrected before the retry) and its exception object is still referenced
     # while the retry runs and commits; it is released afterwards
-    stale = isinstance(fail_at, (list, tuple)) and fail_at[0] == 'retry2'
+    stale = isinstance(fail_at, (list, tuple)) and fail_at[0] in ('retry2', 'retry3')
     kept = []
     attempts = [0]
     src_at = fail_at[1] if isinstance(fail_at, (list, tuple)) and fail_at[0] == 'src' else None
@@ -101,6 +103,11 @@ CHILD = textwrap.dedent('''
             if fail_at is not None and count[0] == fail_at:
                 raise RuntimeError('injected')
             if retry_at is not None and attempts[0] == 0 and count[0] == retry_at:
+                if unwritable:
+                    import fractions
+                    count[0] += 1
+                    yield dict(r, s=fractions.Fraction(1, 3))
+                    continue
                 raise RuntimeError('injected, first attempt only')
             count[0] += 1
             yield dict(r, s='stale value %%d of the failed attempt' %% count[0]) if stale and attempts[0] == 0 else r
@@ -277,13 +284,13 @@ def run_impl(case):
              'rerun_error': (again or {}).get('error')}
         if isinstance(fa, list) and fa[0] == 'stop':
             r['stop'] = {'error': (o or {}).get('error'), 'first': (o or {}).get('res')}
-        if isinstance(fa, list) and fa[0] in ('retry', 'retry2'):
+        if isinstance(fa, list) and fa[0] in ('retry', 'retry2', 'retry3'):
             r['retry'] = {'first': (o or {}).get('first'), 'second': (o or {}).get('res'), 'error': (o or {}).get('error')}
         return r
     with ThreadPoolExecutor(max_workers=12) as ex:
         if case['kind'] == 'crash':
             # steps before the checkpoint at every row and at exhaustion; a step after it at every row
-            points = list(range(nrows)) + ['end'] + [['down', k] for k in range(nrows)] + [['retry', k] for k in range(nrows)] + [['retry2', k] for k in range(1, nrows)] + [['stop', k] for k in (0, 1)] + [['rowstop', k] for k in range(nrows)]
+            points = list(range(nrows)) + ['end'] + [['down', k] for k in range(nrows)] + [['retry', k] for k in range(nrows)] + [['retry2', k] for k in range(1, nrows)] + [['retry3', k] for k in range(1, nrows)] + [['stop', k] for k in (0, 1)] + [['rowstop', k] for k in range(nrows)]
         else:
             points = case['points']
         out['fails'] = list(ex.map(one_fail, points))
